@@ -868,6 +868,108 @@ fn sweep_vfunc(sw: &mut Sweep) {
     }
 }
 
+// --------------------------------------------------------------------------
+// constructor parameters of the selection structures
+
+/// True if building an adaptive selection structure with these parameters over
+/// `count` ones (zeros) would try to allocate an inventory between 256 MiB and the
+/// largest possible allocation: such a call legitimately dies of memory
+/// exhaustion (an abort, not an out-of-bounds access) and is not attempted.
+fn adapt_alloc_unsafe(count: usize, log2_ones_per_inv: usize, max_log2_u64: usize) -> bool {
+    let opi = 1usize.wrapping_shl(log2_ones_per_inv as u32);
+    let entries = count.div_ceil(opi.max(1)) as u128;
+    let l2 = max_log2_u64.min(log2_ones_per_inv.saturating_sub(2));
+    let ups = 1usize.wrapping_shl(l2 as u32) as u128;
+    let words = entries * (ups + 1) + 1;
+    (1u128 << 25..1u128 << 60).contains(&words)
+}
+
+fn probe_select<T: Select + NumBits>(t: &T) {
+    let cnt = t.num_ones();
+    for r in [0usize, 1, cnt / 2, cnt.wrapping_sub(1), cnt, cnt.wrapping_add(1), usize::MAX] {
+        let _ = catch(|| black_box(t.select(r)));
+    }
+}
+
+fn probe_select_zero<T: SelectZero + NumBits + BitLength>(t: &T) {
+    let cnt = t.len() - t.num_ones();
+    for r in [0usize, 1, cnt / 2, cnt.wrapping_sub(1), cnt, cnt.wrapping_add(1), usize::MAX] {
+        let _ = catch(|| black_box(t.select_zero(r)));
+    }
+}
+
+/// The numeric parameters of the constructors (inventory spans, logarithms of
+/// sizes, blocks per inventory entry) over the whole domain of `usize`: the
+/// constructor answers or panics, and a structure it returns answers or panics.
+fn sweep_ctor_params(sw: &mut Sweep) {
+    // classes are resolved against (len, cnt, u) = (3, 31, 63): 2, 3, 4, 6, 30, 31, 32, 62, 63, 64 and the powers / extremes
+    for (name, len, pat, tail) in bitvec_instances() {
+        let make = move |rng: &mut SmallRng| {
+            let m = gen_bits(rng, len, pat);
+            (bitvec_with_tail(rng, &m, tail), 3usize, 31usize, 63usize)
+        };
+        let methods: &[(&str, &dyn Fn(&mut BitVec, usize, &mut SmallRng))] = &[
+            ("SelectAdapt::new(bits,p)", &|b, p, _| {
+                let ones = b.count_ones();
+                if !adapt_alloc_unsafe(ones, 13, p) {
+                    probe_select(&SelectAdapt::new(AddNumBits::from(b.clone()), p));
+                }
+            }),
+            ("SelectAdapt::with_inv(bits,p,3)", &|b, p, _| {
+                let ones = b.count_ones();
+                if !adapt_alloc_unsafe(ones, p, 3) {
+                    probe_select(&SelectAdapt::with_inv(AddNumBits::from(b.clone()), p, 3));
+                }
+            }),
+            ("SelectAdapt::with_inv(bits,q,p)", &|b, p, r| {
+                let ones = b.count_ones();
+                let q = [0usize, 2, 5, 16, 40, 62, 63, 64, 70][r.random_range(0..9)];
+                if !adapt_alloc_unsafe(ones, q, p) {
+                    probe_select(&SelectAdapt::with_inv(Rank9::new(b.clone()), q, p));
+                }
+            }),
+            ("SelectAdapt::with_span(bits,p,3)", &|b, p, _| {
+                probe_select(&SelectAdapt::with_span(AddNumBits::from(b.clone()), p, 3));
+            }),
+            ("SelectZeroAdapt::new(bits,p)", &|b, p, _| {
+                let zeros = b.count_zeros();
+                if !adapt_alloc_unsafe(zeros, 13, p) {
+                    probe_select_zero(&SelectZeroAdapt::new(AddNumBits::from(b.clone()), p));
+                }
+            }),
+            ("SelectZeroAdapt::with_inv(bits,p,3)", &|b, p, _| {
+                let zeros = b.count_zeros();
+                if !adapt_alloc_unsafe(zeros, p, 3) {
+                    probe_select_zero(&SelectZeroAdapt::with_inv(AddNumBits::from(b.clone()), p, 3));
+                }
+            }),
+            ("SelectZeroAdapt::with_inv(bits,q,p)", &|b, p, r| {
+                let zeros = b.count_zeros();
+                let q = [0usize, 2, 5, 16, 40, 62, 63, 64, 70][r.random_range(0..9)];
+                if !adapt_alloc_unsafe(zeros, q, p) {
+                    probe_select_zero(&SelectZeroAdapt::with_inv(Rank9::new(b.clone()), q, p));
+                }
+            }),
+            ("SelectZeroAdapt::with_span(bits,p,3)", &|b, p, _| {
+                probe_select_zero(&SelectZeroAdapt::with_span(AddNumBits::from(b.clone()), p, 3));
+            }),
+            ("SelectSmall<2,9>::with_inv(rs,p)", &|b, p, _| {
+                probe_select(&SelectSmall::<2, 9, _>::with_inv(RankSmall::<2, 9, _>::new(b.clone()), p));
+            }),
+            ("SelectSmall<1,11>::with_inv(rs,p)", &|b, p, _| {
+                probe_select(&SelectSmall::<1, 11, _>::with_inv(RankSmall::<1, 11, _>::new(b.clone()), p));
+            }),
+            ("SelectZeroSmall<2,9>::with_inv(rs,p)", &|b, p, _| {
+                probe_select_zero(&SelectZeroSmall::<2, 9, _>::with_inv(RankSmall::<2, 9, _>::new(b.clone()), p));
+            }),
+            ("SelectZeroSmall<3,13>::with_inv(rs,p)", &|b, p, _| {
+                probe_select_zero(&SelectZeroSmall::<3, 13, _>::with_inv(RankSmall::<3, 13, _>::new(b.clone()), p));
+            }),
+        ];
+        sw.run("ctor-params", name, &make, methods, CLASSES, false);
+    }
+}
+
 fn main() {
     let mut ctx = Ctx::from_args("C12");
     ctx.set_hang_limit(120);
@@ -886,6 +988,7 @@ fn main() {
     sweep_abfv::<u64>(&mut sw, "u64");
     sweep_abfv::<usize>(&mut sw, "usize");
     sweep_rank_select(&mut sw);
+    sweep_ctor_params(&mut sw);
     sweep_ef(&mut sw);
     sweep_rcl(&mut sw);
     if !small {
